@@ -270,6 +270,18 @@ def analyse_indirection(repo: Repo, run: Run, interp) -> None:
                f"{m} does not pass its table argument ({params[1]}) on to {callee}()", nontrivial=False, line=fnode.lineno)
 
 
+def _dispatch_shape(value: T, evs: T) -> bool:
+    tc = T("attr", (SELF, "trace_codes"))
+    H = T("attr", (SELF, "handlers"))
+    first_id = T("attr", (T("sub", (evs, const(0))), "eventid"))
+    names = [T("sub", (tc, first_id))] + [T("call", (T("attr", (tc, "get")), (first_id,) + d, ())) for d in ((), (const(None),))]
+    for name in names:
+        for h in [T("sub", (H, name))] + [T("call", (T("attr", (H, "get")), (name,) + d, ())) for d in ((), (const(None),))]:
+            if value == T("call", (h, (SELF, evs), ())):
+                return True
+    return False
+
+
 def analyse_absent(repo: Repo, run: Run, interp) -> None:
     pk = repo.cls("pykdebugparser", "PyKdebugParser")
     from .. import pipeline
@@ -304,22 +316,16 @@ def analyse_absent(repo: Repo, run: Run, interp) -> None:
     want_call = T("call", (T("sub", (T("attr", (SELF, "handlers")), name)), (SELF, evs), ()))
     rets = [x for x in r.returns if x.kind == "return"]
     nonnull = [x for x in rets if x.value != const(None)]
-    H = T("attr", (SELF, "handlers"))
-    alt_calls = [T("call", (T("call", (T("attr", (H, "get")), (name,) + d, ())), (SELF, evs), ())) for d in ((), (const(None),))]
-    ok = len(nonnull) == 1 and (nonnull[0].value == want_call or nonnull[0].value in alt_calls)
+    from .c04 import dispatch_ok
+    full_ok = len(nonnull) == 1 and dispatch_ok(nonnull[0].value, nonnull[0].pc, evs)
+    # shape: handlers[<name of events[0].eventid in the table>](self, events) in one of the accepted spellings
+    ok = len(nonnull) == 1 and (full_ok or _dispatch_shape(nonnull[0].value, evs))
     run.ob("R3", tp.module.name, "TracesParser.parse_event_list", "decoder selected by the table's name", ok,
            "" if ok else "parse_event_list does not return handlers[trace_codes[first.eventid]](self, events): "
                          + ", ".join(sym.pretty(x.value)[:80] for x in nonnull), line=pel.lineno,
            facts={"return": sym.pretty(nonnull[0].value)[:160] if nonnull else None})
     if ok:
-        from ..render import norm_bool
-        pcs = {norm_bool(c)[0]: (norm_bool(c)[1] == v) for c, v in nonnull[0].pc}
-        g1 = pcs.get(T("cmp", ("in", first_id, tc)))
-        g2 = pcs.get(T("cmp", ("in", name, T("attr", (SELF, "handlers")))))
-        if g2 is None and nonnull[0].value in alt_calls:
-            # `.get` form: the looked-up decoder itself is tested for None
-            g2 = pcs.get(T("cmp", ("is", nonnull[0].value.a[0], const(None)))) is False
-        run.ob("R3", tp.module.name, "TracesParser.parse_event_list", "absent id / undecoded name -> no trace", g1 is True and g2 is True,
+        run.ob("R3", tp.module.name, "TracesParser.parse_event_list", "absent id / undecoded name -> no trace", full_ok,
                "the decoder call is not guarded by both `id in trace_codes` and `name in handlers`; an id absent from the "
                "supplied table raises or is decoded", line=pel.lineno)
         others_none = all(x.value == const(None) for x in rets if x is not nonnull[0])
